@@ -236,6 +236,60 @@ impl Sch for Brakedown {
     }
     ml_common!();
 }
+/// Brakedown with hand-made parameters whose base length is 3, so that the *recursive* part of the code
+/// (sparse matrices A, B around a Reed-Solomon core) is exercised at harness sizes: 2^nv evaluations in 2 rows,
+/// message length m = 2^(nv-1), alpha = 0.178, beta = 0.061, r = 1.521 as in the library's defaults; the
+/// dimension chain follows the paper (A: n x ceil(alpha n), B: ceil(r ceil(alpha n)) x (ceil(r n) - n - that));
+/// two non-zero entries per row (one if there is a single column), concrete-random from the setup RNG.
+pub struct BrakedownRec;
+pub fn brakedown_rec_params(num_vars: usize, sec: usize, wf: bool, rng: &mut StdRng) -> ark_poly_commit::linear_codes::BrakedownPCParams<SF, RoMT, RoColHash> {
+    use ark_ff::{UniformRand, Zero};
+    use ark_poly_commit::linear_codes::verif_hooks::brakedown_params_from_flat;
+    use ark_std::rand::RngCore;
+    let (a, b, r) = ((178usize, 1000usize), (61usize, 1000usize), (1521usize, 1000usize));
+    let cm = |n: usize, q: (usize, usize)| (n * q.0 + q.1 - 1) / q.1;
+    let base_len = 3;
+    let (rows, m) = (2usize, (1usize << num_vars) / 2);
+    let mut a_dims = vec![];
+    let mut n = m;
+    while n >= base_len {
+        let am = cm(n, a);
+        a_dims.push((n, am, core::cmp::min(2, am)));
+        n = am;
+    }
+    let b_dims: Vec<(usize, usize, usize)> = a_dims.iter().map(|&(an, am, _)| { let bn = cm(am, r); let bm = cm(an, r) - an - bn; (bn, bm, core::cmp::min(2, bm)) }).collect();
+    let mut mk = |(n, m, d): (usize, usize, usize)| -> Vec<SF> {
+        // column-major flat list, exactly d non-zero entries per row in distinct columns
+        let mut flat = vec![SF::zero(); n * m];
+        for i in 0..n {
+            let first = (rng.next_u64() as usize) % m;
+            for k in 0..d {
+                let col = (first + k * (1 + (rng.next_u64() as usize) % core::cmp::max(1, m - 1))) % m;
+                let col = if k > 0 && col == first { (first + 1) % m } else { col };
+                let mut v = SF::rand(rng);
+                while v.v.is_zero() {
+                    v = SF::rand(rng);
+                }
+                flat[col * n + i] = v;
+            }
+        }
+        flat
+    };
+    let a_mats: Vec<Vec<SF>> = a_dims.iter().map(|d| mk(*d)).collect();
+    let b_mats: Vec<Vec<SF>> = b_dims.iter().map(|d| mk(*d)).collect();
+    brakedown_params_from_flat(sec, a, b, r, base_len, rows, m, a_dims, b_dims, &a_mats, &b_mats, wf, (), (), ())
+}
+impl Sch for BrakedownRec {
+    type PC = BrakedownPC;
+    const NAME: &'static str = "brakedown-rec";
+    fn setup(sz: &Size, rng: &mut StdRng) -> Result<<Self::PC as PolynomialCommitment<SF, ML>>::UniversalParams, String> {
+        if sz.num_vars < 3 {
+            return Err("brakedown-rec needs at least 3 variables".into());
+        }
+        Ok(brakedown_rec_params(sz.num_vars, sz.ligero.0, sz.ligero.2, rng))
+    }
+    ml_common!();
+}
 pub struct Hyrax;
 impl Sch for Hyrax {
     type PC = HyraxPCS;
